@@ -727,10 +727,14 @@ class Engine:
                         if not _is_star(allowed['a:%s.%s%s' % (selfv.cls, attr, suf)]):
                             allowed['a:%s.%s%s' % (selfv.cls, attr, suf)].append(selfv.t)
                             st.harr('a:%s.%s%s' % (selfv.cls, attr, suf), self.slot_sort(st, T_, suf))
-            if allowed is None:
-                self.havoc_everything(st)
-            else:
-                self.havoc_targets(st, allowed)
+            st.spec -= 1
+            try:
+                if allowed is None:
+                    self.havoc_everything(st)
+                else:
+                    self.havoc_targets(st, allowed)
+            finally:
+                st.spec += 1
             rt = None
             for c in cu.of('returns'):
                 rt = parse_type(ast.literal_eval(c.args[0]))
